@@ -98,7 +98,8 @@ func classify(r *abci.ExecTxResult) string {
 	switch {
 	case r.Code == 0:
 		return "ok"
-	case strings.Contains(r.Log, "no signature from granted address"), strings.Contains(r.Log, "failed to verify message signature authorisation"):
+	case strings.Contains(r.Log, "no signature from granted address"), strings.Contains(r.Log, "failed to verify message signature authorisation"),
+		strings.Contains(r.Log, "cannot be submitted by"):
 		return "ante" // x/paloma VerifyAuthorisedSignatureDecorator
 	case r.Codespace == "sdk" && (r.Code == 4 || r.Code == 8 || r.Code == 32) && !strings.Contains(r.Log, "failed to execute message"):
 		return "sig" // signature verification of the sdk ante chain (wrong signer set, wrong key)
